@@ -74,7 +74,9 @@ static void check_case(vg::Src& s, vh::Ctx& c)
                 continue;
             }
             double fl = floor_of(r, i);
-            double mag = std::fabs(r.z[i]) + std::fabs(fl);
+            // rounding allowance: the linear solve accumulates one product per receiver in the
+            // numerator and the denominator (up to n_neighbors_max terms, duplicates included)
+            double mag = (std::fabs(r.z[i]) + std::fabs(fl)) * (1.0 + 0.5 * static_cast<double>(r.st.rec_count[i]));
             if (r.z[i] <= fl)
             {
                 ++lakes;
